@@ -983,6 +983,8 @@ func (c *Ctx) setupFrame(fr *Frame, env *Env, entryCut int, entryAlloc T) {
 	saveLog := c.writeLog
 	snap := c.snapshot()
 	c.writeLog = nil
+	c.inUnrollHavoc = true // the model rule for writes to unrolled storage does not apply while the clause is evaluated
+	defer func() { c.inUnrollHavoc = false }()
 	for _, a := range c.fc.Assigns {
 		if strings.TrimSpace(a) == "*" {
 			c.frameAll = true
